@@ -201,7 +201,7 @@ ARG_POOL = ["", " ", "a b", "--flag=va lue", 'q"uote', "it's", "é", "日本語"
             "-", "--", "tab\there", "new\nline", "x" * 300, "%s", "a=b", "'", '"', "\\", " lead", "trail ", " nbsp",
             "é", "‮RTL", "0", "null", "[1]", "{}"]
 ENVKEY_POOL = ["A", "PATH", "HOME", "LANG", "LC_ALL", "MY_VAR", "é_key", "with space", "lower", "LOG_LEVEL", "TERM", "USER",
-               "a.b", "K9", "日本", "_", "SHELL", "LOGGING_LEVEL", "C20_SECRET"]
+               "a.b", "K9", "日本", "_", "SHELL", "LOGGING_LEVEL", "C20_SECRET", "SERVICE_API_KEY", "AUTH_TOKEN", "DB_PASSWORD"]
 ENVVAL_POOL = ["", "1", "v w", "é", "a=b", "()notfunc", "x" * 200, "😀", "/bin:/usr/bin", "ERROR", "C", "en_US.UTF-8", "'q'",
                '"dq"', " ", "multi\nline", "$HOME", "\\"]
 TIMEOUT_INT = [0, 1, 5, 30, 120, 3600, 86400, 123456789]
@@ -530,8 +530,8 @@ def materialise(case, rundir, witness):
     only = case.get("only")          # replay: a single step
     for n in case.get("loader_names", []):
         steps.append({"ep": "loader", "name": n, "launch": n in configured and case.get("locale", "utf-8") == "utf-8"})
-    for n in case.get("cli_names", []):
-        steps.append({"ep": "cli", "name": n})
+    for k, n in enumerate(case.get("cli_names", [])):
+        steps.append({"ep": "cli", "name": n, **({"verbose": True} if (k + len(n)) % 2 else {})})   # --verbose changes what is LOGGED only
     for l in case.get("runner_lists", []):
         steps.append({"ep": "runner", "names": l})
     if only is not None:
@@ -784,8 +784,8 @@ def zip_steps(case, res):
         configured = set(case["config"]["mcpServers"]) if case["kind"] == "valid" else set()
         for n in case.get("loader_names", []):
             steps.append({"ep": "loader", "name": n, "launch": n in configured and case.get("locale", "utf-8") == "utf-8"})
-        for n in case.get("cli_names", []):
-            steps.append({"ep": "cli", "name": n})
+        for k, n in enumerate(case.get("cli_names", [])):
+            steps.append({"ep": "cli", "name": n, **({"verbose": True} if (k + len(n)) % 2 else {})})
         for l in case.get("runner_lists", []):
             steps.append({"ep": "runner", "names": l})
     if len(steps) != len(res["steps"]):
